@@ -112,7 +112,7 @@ func lockTarget(v ssa.Value) (FieldID, bool) {
 	case *ssa.Alloc:
 		return FieldID{Owner: "local:" + FnKey(x.Parent()), Name: x.Comment}, true
 	case *ssa.FreeVar:
-		if b := freeVarBinding(x); b != nil {
+		if b := FreeVarBinding(x); b != nil {
 			return lockTarget(b)
 		}
 		return FieldID{Owner: "free:" + FnKey(x.Parent()), Name: x.Name()}, true
